@@ -13,6 +13,9 @@ package casket
 //@ define storOK() bool = storages != nil && forall(k, 0, len(sblocks), has(storages, k) ==> storages[k] != nil)
 //@ define inOuter() bool = 1 <= #i1 && #i1 <= len(directives) && lastDir <= #i1 - 1 && dir == directives[#i1 - 1]
 
+//@ // lookups in the plugin registry and the token-dispenser constructor: frame-empty (explicit assumptions)
+//@ func DirectiveAction
+//@ extern github.com/tmpim/casket/casketfile.NewDispenserTokens
 //@ func executeDirectives
 //@   requires lastDir == -1 && inst != nil
 //@   modifies ghost:lastDir, MV:map[int]map[string]interface{}, MD:map[int]map[string]interface{}, MV:map[string]interface{}, MD:map[string]interface{}
